@@ -187,3 +187,15 @@ Proof.
   cbv zeta. split; [|vm_compute; reflexivity].
   repeat constructor; cbn [fst snd sorted_from end_from v_start v_end]; lia.
 Qed.
+
+
+(* ---------------------------------------------------------------- constants tied to the source
+   The descriptor budget the check runs the model with and the suffixes the model recognises are those of
+   bigwigmerge.rs as extracted into Generated/Consts.v on every run (tools/gen_consts_extra.py gen_merge_tool:
+   MAX_FDS, PARALLEL_CHROMS, the shape of the max_bw_fds formula, the three ends_with literals). *)
+From BT Require Import Generated.Consts Model.Entry_C15.
+Theorem C15_constants_from_source :
+  MAX_BW_FDS = 976%nat /\ (2 <= MAX_BW_FDS)%nat /\
+  s_dot_bw = MERGE_SUFFIX_BW /\ s_dot_bigwig = MERGE_SUFFIX_BIGWIG /\ s_dot_bedgraph = MERGE_SUFFIX_BEDGRAPH.
+Proof. vm_compute. repeat split; lia. Qed.
+Print Assumptions C15_constants_from_source.
